@@ -38,7 +38,21 @@ def aliasing_cache_stores(f: FuncInfo) -> List[dict]:
                 continue
             if isinstance(v, ast.Name):
                 rd = rd or ReachingDefs(f.node)
-                is_param = any(d.kind == "param" for d in rd.defs_of(v))
+
+                def from_param(nm, depth=0):
+                    # a parameter, possibly through plain `a = b` copies of the reference or broadcasting views
+                    if depth > 5:
+                        return False
+                    for d in rd.defs_of(nm):
+                        if d.kind == "param":
+                            return True
+                        val = d.value
+                        while isinstance(val, ast.Call) and isinstance(val.func, ast.Attribute) and val.func.attr in ("expand", "view", "detach", "t"):
+                            val = val.func.value
+                        if d.kind == "assign" and isinstance(val, ast.Name) and from_param(val, depth + 1):
+                            return True
+                    return False
+                is_param = from_param(v)
                 escapes = v.id in returned
                 if is_param or escapes:
                     out.append(dict(node=n, attr=t.attr, ok=False,
